@@ -160,6 +160,7 @@ func (m *resourceManager) getResources() []*Resource {
 
 	orderedResources := make([]*Resource, 0, len(m.resources))
 	for _, uri := range m.resourcesOrder {
+		verifEvent("reg.list.item", m)
 		if registeredResource, exists := m.resources[uri]; exists {
 			orderedResources = append(orderedResources, registeredResource.Resource)
 		}
